@@ -73,6 +73,7 @@ func cmdProve(args []string) {
 	prof := fs.String("cpuprofile", "", "write cpu profile")
 	simFlag := fs.Bool("sim", false, "enable the spec simulation driver")
 	relFlag := fs.Bool("rel", false, "enable the relational (scratch independence) driver")
+	allocFlag := fs.Bool("alloc", false, "activate the @alloc clauses")
 	fs.Parse(args)
 	if *prof != "" {
 		f, _ := os.Create(*prof)
@@ -97,7 +98,7 @@ func cmdProve(args []string) {
 			continue
 		}
 		fc := eng.contracts.Funcs[a]
-		fp := eng.NewFuncProof(f, fc, ProofOpts{Mode: *mode, QuickMs: 4000, SlowMs: 20000, Thorough: *thorough, Verbose: *verbose, Sim: *simFlag, Rel: *relFlag})
+		fp := eng.NewFuncProof(f, fc, ProofOpts{Mode: *mode, QuickMs: 4000, SlowMs: 20000, Thorough: *thorough, Verbose: *verbose, Sim: *simFlag, Rel: *relFlag, Alloc: *allocFlag})
 		fp.Run()
 		tot, dis := fp.ledger.Counts()
 		fmt.Printf("== %s [%s]: %d/%d obligations discharged; blocks=%d cuts=%d paths=%d cands=%d kept=%d rounds=%d queries=%d %.1fs\n",
